@@ -598,8 +598,9 @@ class Runner:
             in_stream = False if self._asynchronous else sys.stdin
         # Determine pty or no
         self.using_pty = self.should_use_pty(opts["pty"], opts["fallback"])
-        if opts["watchers"]:
-            self.watchers = opts["watchers"]
+        # NOTE: assigned on every run, so an earlier run's watchers are never
+        # left in effect on a reused runner.
+        self.watchers = opts["watchers"] or []
         # Set data
         self.opts = opts
         self.streams = {"out": out_stream, "err": err_stream, "in": in_stream}
